@@ -2,13 +2,21 @@
 """mkmut.py Cnn — create a scratch worktree + prompt for an independent seeding agent"""
 import json, subprocess, sys, os
 pid = sys.argv[1]
+round_tag = sys.argv[2] if len(sys.argv) > 2 else ''
 props = {json.loads(l)['id']: json.loads(l) for l in open('/verif/properties.jsonl')}
 base = open('/verif/lib/MUT_PROMPT.txt').read()
-wt = '/tmp/mut_%s' % pid.lower()
+wt = '/tmp/mut_%s%s' % (pid.lower(), round_tag)
 subprocess.run(['git', '-C', '/repo', 'worktree', 'add', '-q', wt, 'HEAD'], check=True)
 p = props[pid]
 txt = json.dumps({k: p[k] for k in ('id', 'title', 'statement', 'quantifier', 'anchors')}, indent=1, ensure_ascii=False)
 open(wt + '_prop.json', 'w').write(txt)
 os.makedirs('/verif/build/prompts', exist_ok=True)
-open('/verif/build/prompts/mut_%s.txt' % pid, 'w').write(base.replace('WT', wt).replace('OUT', wt + '_out').replace('PROPTEXT', txt))
+import glob
+avoid = []
+for m in sorted(glob.glob('/verif/seeded/%s-*/meta.json' % pid)):
+    avoid.append('- ' + json.load(open(m))['summary'])
+extra = ''
+if avoid:
+    extra = '\n\nThese ideas have ALREADY been used by earlier rounds — produce three DIFFERENT ones (different functions, mechanisms or trigger conditions):\n' + '\n'.join(avoid) + '\n'
+open('/verif/build/prompts/mut_%s%s.txt' % (pid, round_tag), 'w').write(base.replace('WT', wt).replace('OUT', wt + '_out').replace('PROPTEXT', txt + extra))
 print(wt)
